@@ -9,7 +9,7 @@ import propbase
 ID = "C13"
 MODULE = "HttpcoreModel.Props.C13"
 THEOREMS = [f"Httpcore.C13.{n}" for n in ("upload_in_order", "send_within_window", "windows_charged", "stops_only_on_closed_window",
-                                           "waits_iff_no_window", "send_takes_min", "consume_inv", "process_inv", "credit_returned",
+                                           "waits_iff_no_window", "flow_wait_notices_reset", "send_takes_min", "consume_inv", "process_inv", "credit_returned",
                                            "increment_exact", "ack_uses_flow_controlled_length", "shared_window_respected", "each_upload_in_order")]
 TRUSTED = [
     "Lean 4.33 kernel; axioms per theorem under coverage.theorems",
